@@ -363,8 +363,12 @@ def main():
         summary["max_talign"] = max(c[1] for c in cases)
         summary["profiles"] = ["debug", "release"]
         summary["mismatches"] = mismatches[:20]
-        step = max(1, len(parsed) // 5)
-        summary["samples"] = [parsed[i][1] for i in range(0, len(parsed), step)][:5]
+        by_case = {}
+        for _, l, d in parsed:
+            by_case.setdefault((int(d["talign"]), int(d["tsize"]), d["route"]), l)
+        keys = sorted(by_case)
+        step = max(1, len(keys) // 5)
+        summary["samples"] = [by_case[keys[i]] for i in range(step // 2, len(keys), step)][:5]
         if mismatches:
             raise CheckFailure(mismatches[0])
         finish("LAYOUT", True, summary, args, t0, okline="LAYOUT ok types=%d routes=%d" % (len(types), len(routes)))
